@@ -66,9 +66,7 @@ nni_aio *g_cx_aio;
 
 /* ---- nni_aio_start -------------------------------------------------------- */
 bool     g_start_ok; /* answer (chosen by the harness: arbitrary) */
-size_t   g_start_calls;
-nni_aio *g_start_aio;
-void    *g_start_fn, *g_start_arg;
+/* (g_start_calls, g_start_aio, g_start_fn, g_start_arg: fields of g_sys, below) */
 
 /* ---- system calls --------------------------------------------------------- */
 #define VP_SYS_WRITE 1
@@ -105,7 +103,24 @@ typedef struct {
 	nni_aio *fin_last;
 	int      fin_last_rv;
 	size_t   fin_last_count;
+	/* nni_aio_start, poller */
+	size_t   start_calls;
+	nni_aio *start_aio;
+	void    *start_fn, *start_arg;
+	size_t   arm_calls, pfd_close_calls, pfd_stop_calls, dialcb_calls;
+	unsigned arm_events;
+	nni_posix_pfd *arm_pfd;
 } vp_sys;
+#define g_start_calls g_sys.start_calls
+#define g_start_aio g_sys.start_aio
+#define g_start_fn g_sys.start_fn
+#define g_start_arg g_sys.start_arg
+#define g_arm_calls g_sys.arm_calls
+#define g_arm_events g_sys.arm_events
+#define g_arm_pfd g_sys.arm_pfd
+#define g_pfd_close_calls g_sys.pfd_close_calls
+#define g_pfd_stop_calls g_sys.pfd_stop_calls
+#define g_dialcb_calls g_sys.dialcb_calls
 vp_sys g_sys;
 #define g_errno g_sys.err_no
 #define g_plat_calls g_sys.plat_calls
@@ -120,7 +135,5 @@ vp_sys g_sys;
 
 /* ---- poller ----------------------------------------------------------------- */
 int            g_pfd_fd; /* descriptor of the connection (arbitrary, may be negative = already closed) */
-size_t         g_arm_calls, g_pfd_close_calls, g_pfd_stop_calls, g_dialcb_calls;
-unsigned       g_arm_events;
-nni_posix_pfd *g_arm_pfd;
+/* (g_arm_calls, g_arm_events, g_arm_pfd, g_pfd_close_calls, g_pfd_stop_calls, g_dialcb_calls: fields of g_sys) */
 #endif
